@@ -444,6 +444,8 @@ def gen_world(rs: int, P: dict) -> dict:
     rl = sub(rs, "second_life")
     if P.get("second_life", 0) and P["net"] == "custom" and rl.random() < P["second_life"]:
         sc["second_life"] = {k: rl.random() < 0.6 for k in ("network", "queue", "evs", "algo")}
+        if rl.random() < 0.4:
+            sc["second_life"]["longer_first_life"] = rl.choice([3, 10, 25])
     rf2 = sub(rs, "refill")
     if P.get("refill", 0) and rf2.random() < P["refill"]:
         cuts = refill_cuts(sc)
